@@ -420,5 +420,8 @@ def explore(ctx: Ctx):
                 paths.append(dict(tab, N=N, num_steps=2, n_iter=10, interval=1000, lr=0.05, policy_key=pk, key=keys[0]))
     ctx.run_parallel("iteration_paths", paths, workers=6, group_key=lambda c: c["N"], threads=2)
     ctx.notes["iteration_path_cases"] = len(paths)
-    ctx.nontrivial |= {("diff", i) for i in range(len(diff))} | {("stream", i) for i in range(len(streams))}
+    # non-trivial (measured): collections in which the parallel environments really started in different states, and
+    # stream cases whose MDP ends episodes by termination as well as by the time limit
+    ctx.nontrivial |= {("diff", i) for i in range(ctx.guards.get("collect-envs-start-differently", 0))}
+    ctx.nontrivial |= {("stream", i) for i, c in enumerate(streams) if any(c["term"]) and c.get("tl")}
     ctx.require("collect-envs-start-differently", "after_reset", "trunc_only", "term_only", "paths-online-target-greedy-actions-differ")
